@@ -378,22 +378,22 @@ Proof.
   set (s := jump_until _ s0 _) in *.
   destruct ((v_r (k_vot s) =? cp_round cp) && (v_h (k_vot s) =? hd_height hd)) eqn:Hpos; cbn [negb]; [|discriminate].
   apply andb_true_iff in Hpos as [Hr Hh]. apply N.eqb_eq in Hr, Hh.
-  assert (Hsame : forall r0, Ok (s, r0) = Ok (s', res) -> vinv ih ivs s') by (intros r0 E; inversion E; subst; exact H).
+  assert (Hsame : forall r0, Ok (s0, r0) = Ok (s', res) -> vinv ih ivs s') by (intros r0 E; inversion E; subst; exact H0).
   destruct (hd_ok hd) eqn:Hok; cbn [negb]; [|apply Hsame].
   destruct (negb (hd_height hd =? k_init_h s) && negb (bytes_eqb (hd_prev hd) (chdr_hash s))) eqn:Hprev; [apply Hsame|].
   destruct (valset_equal (hd_vals hd) (v_vals (k_vot s)) && vs_ok (hd_vals hd)) eqn:Hveq; cbn [negb]; [|apply Hsame].
   apply andb_true_iff in Hveq as [Hveq _].
   destruct (vs_ok (hd_next hd)) eqn:Hnext; cbn [negb]; [|apply Hsame].
-  destruct (fold_left _ (cp_proofs cp) ([], true)) as [temp allv].
+  destruct (fold_left _ (signed_entries (cp_proofs cp)) ([], true)) as [temp allv].
   destruct (negb allv); [apply Hsame|].
+  destruct (pm_get temp (hd_hash hd)); [|apply Hsame].
+  unfold bind at 1. destruct (byz_majority _); [|discriminate].
+  destruct (_ <? _); [apply Hsame|].
   fold (replay_insert s hd (cp_round cp)).
   unfold bind at 1. destruct (replay_insert s hd (cp_round cp)) as [s1|] eqn:Hins; [|discriminate].
   pose proof (replay_checks_good _ _ _ _ (cp_round cp) Hc Hh Hok Hnext Hb Hprev) as Hgood.
   destruct (cinv_replay_insert _ _ _ _ _ _ Hc Hgood Hins) as [Hc1 _].
   pose proof (vinv_replay_insert _ _ _ _ _ _ H Hveq Hins) as H1.
-  destruct (pm_get temp (hd_hash hd)); [|intros E; inversion E; subst; exact H1].
-  unfold bind at 1. destruct (byz_majority _); [|discriminate].
-  destruct (_ <? _); [intros E; inversion E; subst; exact H1|].
   unfold bind. destruct (check_voting_precommit_shift _) as [s3|] eqn:Hcv; [|discriminate].
   intros E; inversion E; subst.
   match type of Hcv with check_voting_precommit_shift ?X = _ => set (s2 := X) in * end.
